@@ -9,7 +9,7 @@ import c04_loaders
 PROP = "C04"
 PROP_FILES = sorted(os.path.relpath(p, common.COQ) for p in glob.glob(os.path.join(common.COQ, "props", "C04*.v")))
 TRUSTED = [
-    "the loader mirrors coq/model/Parse_*.v (Musepack, WavPack, SMF, VComment, OggVorbisInfo on Model.Ogg.page_parse, _APEv2Data, ID3Header, MP4 Atom/Atoms, "
+    "the loader mirrors coq/model/Parse_*.v (Musepack, WavPack, SMF, VComment, OggVorbis/Opus/Speex/Theora Info on Model.Ogg.page_parse, _APEv2Data, ID3Header, MP4 Atom/Atoms, "
     "TrueAudio/MonkeysAudio/OptimFROG headers) are hand-written, tied to /repo by outcome-class + decoded-field correspondence on the malformed stream and field sweeps",
     "the file object of the mirrors is CPython's BytesIO (read/seek/tell incl. ValueError on negative absolute seek, clamping of relative seeks, OverflowError beyond "
     "ssize_t) -- Model.Parse_base; real files differ (negative seek is an OSError, which every mirrored loader converts to its error class)",
@@ -31,7 +31,7 @@ RULE = ("correspondence: for every loader with a Coq mirror (MODELLED) the fuzze
         "non-trivial = the input differs from its seed and was accepted or rejected past the first header check; distinct by (opener, input hash)")
 MANIFEST = {
     "text": "partial: totality theorems (every byte string yields Ok or a MutagenError-class rejection, fuel never exhausted, fuel a*len+b) for the exception-faithful "
-            "mirrors of MusepackInfo, WavPackInfo, SMF, VComment.load, OggPage+OggVorbisInfo (under OggFileType.load's mapping), _APEv2Data, ID3Header, MP4 Atom/Atoms "
+            "mirrors of MusepackInfo, WavPackInfo, SMF, VComment.load, OggPage + OggVorbis/Opus/Speex/Theora Info (under OggFileType.load's mapping), _APEv2Data, ID3Header, MP4 Atom/Atoms "
             "(under MP4.load's mapping) and the TrueAudio/MonkeysAudio/OptimFROG header readers; all other parsers, the tag-level parsers behind these headers, and the "
             "open-save-delete contract as a whole, by structured + mutation fuzzing with a watchdog over all openers",
     "note": "Not covered by theorem: parsers without an exception-faithful model in this commit (listed in the evidence as families_without_theorem); they are "
@@ -159,8 +159,8 @@ OPENER_THEOREMS = {
     "APEv2File": ["APEv2Data"], "APEv2": ["APEv2Data"],
     "MonkeysAudio": ["MonkeysAudio", "APEv2Data"], "OptimFROG": ["OptimFROG", "APEv2Data"], "TAK": ["APEv2Data"],
     "TrueAudio": ["TrueAudio", "ID3Header"], "EasyTrueAudio": ["TrueAudio", "ID3Header"],
-    "MP3": ["ID3Header"], "EasyMP3": ["ID3Header"], "ID3FileType": ["ID3Header"], "EasyID3FileType": ["ID3Header"],
-    "ID3": ["ID3Header"], "EasyID3": ["ID3Header"],
+    "MP3": ["ID3Header", "ID3determine_bpi"], "EasyMP3": ["ID3Header", "ID3determine_bpi"], "ID3FileType": ["ID3Header", "ID3determine_bpi"],
+    "EasyID3FileType": ["ID3Header", "ID3determine_bpi"], "ID3": ["ID3Header", "ID3determine_bpi"], "EasyID3": ["ID3Header", "ID3determine_bpi"],
     "MP4": ["MP4Atoms"], "EasyMP4": ["MP4Atoms"],
 }
 OPENER_THEOREMS = {k: v for k, v in OPENER_THEOREMS.items() if v}
@@ -344,7 +344,7 @@ def exc_class(e):
     return type(e).__name__
 
 
-def impl_outcome(L, data, limit_s=5.0):
+def impl_outcome(L, data, limit_s=5.0, retry=True):
     """(outcome class, canonical info or None, escape site)"""
     import mutagen
     signal.signal(signal.SIGALRM, _alarm)
@@ -356,13 +356,17 @@ def impl_outcome(L, data, limit_s=5.0):
         except mutagen.MutagenError:
             return "MutagenError", None, None
         except Timeout:
-            return "timeout", None, "watchdog"
+            pass
         except RecursionError as e:
             return "RecursionError", None, site_of(e)
         except Exception as e:
             return exc_class(e), None, site_of(e)
     finally:
         signal.setitimer(signal.ITIMER_REAL, 0)
+    # the watchdog fired: a stalled machine is not a hang -- once more with four times the time
+    if retry:
+        return impl_outcome(L, data, 4 * limit_s, False)
+    return "timeout", None, "watchdog"
 
 
 def model_outcome(ctx, name, L, data):
